@@ -371,8 +371,21 @@ class ExcelCompiler:
             if not filename.endswith(pickle_extension):
                 filename += '.' + pickle_extension
 
+            # the pickle on disk is current only if this model wrote it, from
+            # this very text (time stamps can not tell: a save of another
+            # text format or of the pickle alone may lie in between)
+            text_digest = self._compute_file_md5_digest(text_name)
+            written = self.__dict__.setdefault('_pickles_written', {})
+            pickle_key = os.path.abspath(filename)
+            pickle_is_current = (
+                os.path.exists(filename) and written.get(pickle_key) == (
+                    text_digest, os.stat(filename).st_mtime_ns))
+
             # also when a text only save refreshed the text file in between
-            if (text_changed or not os.path.exists(filename) or
+            # (a save of the pickle alone leaves nothing else behind: it has
+            # to become the most recent file)
+            if (text_changed or not pickle_is_current or
+                    non_pickle_extension not in file_types or
                     os.path.getmtime(filename) < text_saved_at):
                 excel_compiler = self._from_text(text_name, is_json=is_json)
                 if non_pickle_extension not in file_types:
@@ -380,6 +393,8 @@ class ExcelCompiler:
 
                 with open(filename, 'wb') as f:
                     pickle.dump(excel_compiler, f)
+                written[pickle_key] = (
+                    text_digest, os.stat(filename).st_mtime_ns)
 
     @classmethod
     def from_file(cls, filename, plugins=None):
